@@ -46,13 +46,27 @@ class C17(Prop):
 
     def oracle(self, name, ops, go):
         out = []
-        for cops, cgo in cases(ops, go):
+        lean = self.lean_out if self.lean_out is not None and len(self.lean_out) == len(ops) else None
+        lean_cases = list(cases(ops, lean)) if lean is not None else None
+        for cn, (cops, cgo) in enumerate(cases(ops, go)):
+            clean = lean_cases[cn][1] if lean_cases is not None else None
             chips, dirs_of, single, failed = [], [], {}, set()
             for i, (op, g) in enumerate(zip(cops, cgo)):
                 if op.startswith("hw.tree"):
-                    chips = self.parse_tree(g)
-                    dirs_of = self.parse_dirs(g)
+                    # which devices exist is taken from the MODEL's discovery of the same tree (proved: C17_fan_paths,
+                    # C17_sensor_by_index), not from the implementation's own dump: a discovery that drops or renumbers
+                    # devices must not define what the entries "name"
+                    ref = clean[i] if clean is not None and i < len(clean) and clean[i].startswith("n=") else g
+                    chips = self.parse_tree(ref)
+                    dirs_of = self.parse_dirs(ref)
                     single, failed = {}, set()   # results of the single-entry hw.bindfan ops on THIS tree
+                if op.startswith("hw.bindsensor ") and g.startswith("err"):
+                    a = kv(op)
+                    pat, idx = a.get("platform", ""), a.get("index", "0")
+                    allowed = {tm[int(idx)] for (plat, tm) in chips if pat.lower() in plat.lower() and int(idx) in tm}
+                    if allowed:
+                        out.append(viol(f"sensor entry (platform '{pat}', index {idx}) failed to bind although the tree has {sorted(allowed)}", cops, cgo, upto=i))
+                        break
                 if op.startswith("hw.bindfan "):
                     a = kv(op)
                     key = (a.get("platform", ""), a.get("index", "0"), a.get("rpm", "0"), a.get("pwm", "0"))
